@@ -86,12 +86,24 @@ def r2_switch(ctx, rep, R='C15.R2'):
               func=fi.qualname, where=ctx.where(fi, fi.node))
     go = ctx.model.func('options.get_options')
     ok = False
+    from .common import expander, guard_literals
+    exp = expander(go.node, only=lambda v: dotted(v) is not None or isinstance(v, ast.Constant))
     for n in ast.walk(go.node):
-        if isinstance(n, ast.If) and norm(n.test) == 'options.usecompiled':
-            for s in n.body:
-                if isinstance(s, ast.Assign) and dotted(s.targets[0]) == 'options.keepbytecode' and \
-                        (norm(s.value) in ('True', 'options.usecompiled')):
-                    ok = True
+        if isinstance(n, ast.Assign) and any(dotted(t) == 'options.keepbytecode' for t in n.targets):
+            lits = [(norm(exp(e)), pos) for e, pos in guard_literals(ctx, go, n, expand_bools=False)]
+            # (paths that give up with options.fail are guarded by their own literals; the store
+            # must hold exactly under "usecompiled")
+            # literals that hold on every path to the regular return (early exits for --version,
+            # contradictory options ...) do not narrow the condition
+            rets = [x for x in ast.walk(go.node) if isinstance(x, ast.Return) and x.value is not None]
+            common = set()
+            if rets:
+                last = max(rets, key=lambda r: r.lineno)
+                common = {(norm(exp(e)), pos) for e, pos in guard_literals(ctx, go, last, expand_bools=False)}
+            extra = [l for l in lits if l != ('options.usecompiled', True) and l not in common]
+            if ('options.usecompiled', True) in lits and not extra and \
+                    norm(exp(n.value)) in ('True', 'options.usecompiled'):
+                ok = True
     rep.check(ok, R, 'get_options: usecompiled -> keepbytecode', '--usecompiled no longer implies '
               '--keepbytecode: compiled-only test modules would be deleted', key='usecompiled',
               func=go.qualname, where=ctx.where(go, go.node))
